@@ -19,11 +19,11 @@ from common import Check, run_impl, standard_proof_step, TRUSTED_COMMON
 IMPORTS = "From XV Require Import Base.Str Base.Eqb Model.Bind Model.EventGen Model.DictCodec Model.DictCodecCorr."
 SLICE_MIX = [("F1",), ("F1",), ("F1", "F2"), ("F1", "F2", "F3"), ("F1", "F2", "F3")]
 CHECKS = ["in_proved_slice", "theorem_instance", "negb_ambiguous", "agree_encode", "agree_decode", "oracle_roundtrip", "oracle_strict_json", "is_typed", "in_guard",
-          "not_class 0", "not_class 1", "not_class 2", "not_class 4", "not_class 5", "not_class 7", "not_class 10", "not_class 11", "not_class 12",
+          "not_class 0", "not_class 1", "not_class 2", "not_class 4", "not_class 5", "not_class 7", "not_class 10", "not_class 12", "roundtrip_ok",
           "not_class 98"]
 CLASS_NAMES = {"not_class 1": "json-key-collision", "not_class 2": "null-decodes-to-default",
                "not_class 4": "compound-choice-shadowed-in-json", "not_class 10": "best-match-tie",
-               "not_class 11": "wrapper-under-best-match", "not_class 5": "tuple-field", "not_class 7": "generic-keys-filtered",
+               "not_class 5": "tuple-field", "not_class 7": "generic-keys-filtered",
                "not_class 12": "best-match-guess"}
 
 
@@ -185,7 +185,7 @@ def witness_models():
     d = mk([one("P", [F("w", "Element", ("class", "W"), optional=True)]),
             one("W", [F("items", "Element", ("prim", "str"), list=True, wrapper="wrap", xml_name="it")]),
             one("W2", [F("extra", "Element", ("prim", "int"), optional=True)], base="W")])
-    out.append(("wrapper-under-best-match", d,
+    out.append(("fixed:wrapper-under-best-match", d,
                 {"__cls__": "P", "fields": {"w": {"__cls__": "W2", "fields": {"items": [P("str", "a")], "extra": P("int", 1)}}}}, "dict"))
     # 6. filter_none drops the None-valued keys of an AnyElement dictionary: no longer recognised
     d = mk([one("A", [{"name": "w", "kind": "Wildcard", "list": False, "namespace": "##any"}])])
@@ -202,7 +202,9 @@ def witness_models():
     return out
 
 
-def evaluate(models, res, tag="c04"):
+def evaluate(models, res, tag=None):
+    import os
+    tag = tag or f"c04_{os.getpid()}"    # concurrent runs must not share case files
     mids = [i for i, m in enumerate(res["models"]) if m["universe"]]
     parts = chunks(mids, 16)
 
@@ -299,6 +301,12 @@ def run(ck: Check):
                            describe(models, res, mi, 0, f"c04_k{mi}_0", with_model=False))
         # witnesses must be attributed to their own class
         for mi, (cls, *_rest) in enumerate(wit):
+            if cls.startswith("fixed:"):
+                # witness of a repaired finding: the round trip must hold now
+                if (mi, 0) in v["roundtrip_ok"] or not res["models"][mi]["cases"] or not res["models"][mi]["cases"][0].get("case"):
+                    ck.failure("regression-" + cls[6:], "the witness of a repaired finding fails again",
+                               describe(models, res, mi, 0, f"c04_w{mi}_0"))
+                continue
             chk = [k for k, n in CLASS_NAMES.items() if n == cls][0]
             if res["models"][mi]["unsupported"] or not res["models"][mi]["cases"] or res["models"][mi]["cases"][0].get("skip"):
                 ck.failure("harness-witness", f"the witness of {cls} could not be run", {"why": str(res["models"][mi])[:500]})
@@ -369,7 +377,7 @@ def write_witness_file(path=None):
            "From XV Require Import Base.Str Base.Eqb Model.Bind Model.EventGen Model.DictCodec Model.DictCodecCorr.",
            "Import ListNotations.", ""]
     for i, ((cls, _d, _r, _f), rm) in enumerate(zip(wit, res["models"])):
-        name = "w_" + cls.replace("-", "_")
+        name = "w_" + cls.replace("fixed:", "").replace("-", "_")
         assert rm["universe"] and rm["cases"][0]["case"], (cls, rm)
         out.append(f"(* {cls} *)")
         out.append(f"Definition {name}_u : universe := {rm['universe']}.")
